@@ -1524,5 +1524,5 @@ func main() {
 	tw.Flush()
 	tf.Close()
 	c, _ := json.Marshal(counts)
-	fmt.Printf("{\"summary\":true,\"lines\":%d,\"types\":%d,\"counts\":%s}\n", nlines, len(types), c)
+	fmt.Printf("{\"summary\":true,\"lines\":%d,\"types\":%d,\"failed_encodes\":%d,\"counts\":%s}\n", nlines, len(types), failedEncodes, c)
 }
